@@ -44,8 +44,10 @@ TRUSTED = [
     "real bash on every run (random scripts of the whole fragment + every text the real code produced), not proved",
     "the UTF-8 encoder `enc` of the model is compared with CPython's str.encode on the sampled texts",
     "tables of str.isalnum / str.isalpha / str.isspace are regenerated from the running CPython on every run",
-    "the daemon's `read`/`read -r -N`/`case` dispatch is modelled at message level (recvEnv/recvDepend); tied to the real "
-    "daemon by the recorded round trips",
+    "the daemon's `read`/`read -r -N`/`case` dispatch is modelled at message level (recvEnv/recvDepend: `readSize n` hands over "
+    "exactly n units however large n is); tied to the code by receiving every produced transfer with the daemon's own "
+    "__ebd_read_line/__ebd_read_size (sourced from ebuild-daemon-lib.bash; transfers beyond the pipe capacity are fed through a "
+    "real pipe by another process) and by the recorded real-daemon round trips, which include inline transfers of 68-110 KiB",
 ]
 ASSUMPTIONS = [
     "keys are valid shell names, pairwise distinct, not names the daemon itself manages (IFS, PATH, PKGCORE_*, readonly "
@@ -61,7 +63,8 @@ ASSUMPTIONS = [
 RULE = ("environment mappings with 1-12 entries: names VT_*/_*/lower-case, scalar or list values built from segments mixing "
         "alphanumerics, blanks, ' \" \\ $ ` newline tab CR, backslash sequences (\\n, \\', \\\\, \\x41, \\0), $VAR/${x}/$(cmd), "
         "glob and history characters, control bytes 0x01/0x7f/0x1b, 2-, 3- and 4-byte UTF-8 characters, empty and long "
-        "values; random non-exported marker and readonly names; non-trivial = at least one value that needs quoting "
+        "values, and mappings of 68-110 KiB (long file-list array / one long value / hundreds of entries: more than a pipe holds); "
+        "random non-exported marker and readonly names; non-trivial = at least one value that needs quoting "
         "(not purely alphanumeric); distinct by generated text")
 LEVEL_TEXT = ("Kernel-checked Lean 4 theorems over all mappings/texts: every NUL-free text quoted by _quote_value is read back by the "
               "bash evaluator as exactly its UTF-8 bytes (quote_roundtrip, also for array elements); the text of "
@@ -120,32 +123,50 @@ def gen_tables(repo):
 # count after the last blank, `read -r -N count`, `eval` under IFS=NUL, then `read -r` whatever is left on that
 # line of the pipe); mode `source` sources the file.  Variables are dumped NUL-separated and unset again.
 RUNNER = r'''
-dir=$1; n=$2
+dir=$1; n=$2; lib=$3
+if [[ -n ${lib} ]]; then
+	# the daemon's own __ebd_read_line / __ebd_read_size (ebuild-daemon-lib.bash); its die must not end the batch
+	die() { __died=1; }
+	source "${lib}"
+	die() { __died=1; }
+fi
 exec 3> "${dir}/out"
 for (( __i = 0; __i < n; __i++ )); do
 	mapfile -t __names < "${dir}/${__i}.names"
 	__mode=${__names[0]}
 	__names=( "${__names[@]:1}" )
-	__tail=
+	__tail=; __died=
 	if [[ ${__mode} == source ]]; then
 		source "${dir}/${__i}.sh" 2>/dev/null
 		__st=$?
 	else
-		exec 4< "${dir}/${__i}.sh"
-		__hdr=; __data=
-		if [[ ${__mode} == chan ]]; then
-			read -u 4 __hdr
-			__cnt=${__hdr##* }
+		if [[ -e ${dir}/${__i}.pipe ]]; then
+			exec 4< <(cat "${dir}/${__i}.sh")      # through a real pipe, written by another process
 		else
-			__cnt=${__mode}
+			exec 4< "${dir}/${__i}.sh"
 		fi
-		read -u 4 -r -N "${__cnt}" __data
+		__hdr=; __data=
+		if [[ ${__mode} == chan && -n ${lib} ]]; then
+			PKGCORE_EBD_READ_FD=4
+			__ebd_read_line __hdr
+			__cnt=${__hdr##* }
+			__ebd_read_size "${__cnt}" __data
+		else
+			if [[ ${__mode} == chan ]]; then
+				read -u 4 __hdr
+				__cnt=${__hdr##* }
+			else
+				__cnt=${__mode}
+			fi
+			read -u 4 -r -N "${__cnt}" __data
+		fi
 		IFS= read -u 4 -r -d '' __tail
 		exec 4<&-
 		__IFS=${IFS}; IFS=$'\0'
 		eval "${__data}" 2>/dev/null
 		__st=$?
 		IFS=${__IFS}
+		[[ -n ${__died} ]] && __st=99
 	fi
 	printf 'S\0%s\0%s\0%s\0' "${__i}" "${__st}" "${__tail}" >&3
 	for __n in "${__names[@]}"; do
@@ -163,9 +184,12 @@ printf 'E\0' >&3
 '''
 
 
-def run_bash(jobs):
+def run_bash(jobs, lib=None, piped=()):
     """jobs: list of (bytes, [names], mode) with mode in {"source", "chan", <int count>}
-    -> list of (status, tail bytes, {name: (flags, [bytes])})"""
+    -> list of (status, tail bytes, {name: (flags, [bytes])}).
+    lib: path of ebuild-daemon-lib.bash: `chan` jobs are then received with the daemon's own __ebd_read_line /
+    __ebd_read_size (only texts produced by the real code are run this way; PATH is the real one because those
+    functions may use external tools).  piped: indices of jobs delivered through a real pipe instead of a file."""
     if not jobs:
         return []
     d = tempfile.mkdtemp(prefix="c31-bash-")
@@ -175,10 +199,12 @@ def run_bash(jobs):
                 f.write(text)
             with open(os.path.join(d, f"{i}.names"), "w") as f:
                 f.write(str(mode) + "\n" + "".join(n + "\n" for n in names))
+            if i in piped:
+                open(os.path.join(d, f"{i}.pipe"), "w").close()
         with open(os.path.join(d, "runner.sh"), "w") as f:
             f.write(RUNNER)
-        subprocess.run([shutil.which("bash"), "--norc", "--noprofile", os.path.join(d, "runner.sh"), d, str(len(jobs))],
-                       check=True, env={"PATH": "/nonexistent"}, cwd=d,
+        subprocess.run([shutil.which("bash"), "--norc", "--noprofile", os.path.join(d, "runner.sh"), d, str(len(jobs)), lib or ""],
+                       check=True, env={"PATH": os.environ.get("PATH", "/usr/bin:/bin") if lib else "/nonexistent"}, cwd=d,
                        stdin=subprocess.DEVNULL, stdout=subprocess.DEVNULL, stderr=subprocess.DEVNULL, timeout=900)
         data = open(os.path.join(d, "out"), "rb").read().split(b"\0")
         out, j = [], 0
@@ -250,6 +276,36 @@ def gen_value(rng):
         return "".join(rng.choice(ALNUM) for _ in range(rng.randint(1, 4)))
     n = rng.choice([1, 2, 3, 4, 6, 9, 14]) if k < 0.97 else rng.randint(200, 1500)
     return "".join(rng.choice(SEGS) if rng.random() < 0.6 else rng.choice(ALNUM) for _ in range(n))
+
+
+def gen_big(rng, prefix="VT_", kinds=(0, 1, 2)):
+    """mappings whose text is larger than a pipe buffer (64 KiB): 68-110 KiB as a long file-list array, one long value, or
+    many entries"""
+    k = rng.choice(kinds)
+    target = rng.randint(68, 110) * 1024
+    if k == 0:
+        special = ["it's", 'a"b', "$x `y`", "é", "", "sp ace", "back\\slash"]
+        files, size, i = [], 0, 0
+        while size < target:
+            f = "/usr/share/doc/pkg-%d.%d/file-%d.txt" % (i % 7, i % 3, i) if i % 97 else rng.choice(special)
+            files.append(f)
+            size += len(f.encode("utf-8")) + 10
+            i += 1
+        return {prefix + "files": files, prefix + "after": "still here"}
+    if k == 1:
+        parts, size = [], 0
+        while size < target:
+            x = rng.choice(SEGS + ALNUM) * rng.randint(1, 40)
+            parts.append(x)
+            size += len(x.encode("utf-8"))
+        return {prefix + "blob": "".join(parts), prefix + "after": ["x", "y z"]}
+    env, size, i = {}, 0, 0
+    while size < target:
+        v = gen_value(rng) * rng.randint(1, 12) + "0123456789" * 20
+        env[prefix + "e%d" % i] = v
+        size += len(v.encode("utf-8")) + 12
+        i += 1
+    return env
 
 
 def gen_env(rng, idx, daemon=False, ro=()):
@@ -531,6 +587,8 @@ def run(ctx):
 
 
 def _run(ctx, processor, rng, scratch):
+    from pkgcore.ebuild import const as e_const
+    ebd_path = e_const.EBD_PATH
     ebp = processor.request_ebuild_processor()
     ro = sorted(ebp._readonly_vars)
     processor.release_ebuild_processor(ebp)
@@ -546,6 +604,8 @@ def _run(ctx, processor, rng, scratch):
     envs += [(e, "corpus") for e in CORPUS + ORACLE_ONLY_CORPUS]
     for i in range(ctx.n(1000, 15000)):
         envs.append((gen_env(rng, i, ro=ro), "random"))
+    for i in range(ctx.n(3, 30)):
+        envs.append((gen_big(rng), "big"))
     keyerr = [(e, "keyerror") for e in KEYERR_CORPUS]
 
     stub = StubProcessor(processor, ro)
@@ -562,7 +622,7 @@ def _run(ctx, processor, rng, scratch):
             real.append((text, err))
         reps = ctx.model([{"cmd": "c31.genenv", "ro": ro, "env": to_model_env(env)} for env, _ in envs + keyerr])
 
-        jobs, jobinfo = [], []
+        jobs, jobinfo, piped = [], [], set()
         for (env, kind), (text, err), rep in zip(envs + keyerr, real, reps):
             case = {"env": env, "kind": kind}
             if rep == "bad-op":
@@ -603,6 +663,10 @@ def _run(ctx, processor, rng, scratch):
             names = [k for k in env if k != MARKER and k not in ro]
             # the real framing code: send_env inline, send_env file, _run_depend_like_phase (gen_metadata)
             which = len(jobs) % 3
+            if kind == "big":
+                which = 0 if len(jobs) % 2 == 0 else 2
+                piped.add(len(jobs))
+                ctx.count("big_text_%d0KiB" % (len(text.encode("utf-8")) // 10240))
             if which == 0:
                 ok, chan = stub.send_env(env)
                 jobs.append((chan + b"alive\n", names, "chan"))
@@ -625,7 +689,7 @@ def _run(ctx, processor, rng, scratch):
         freqs = [{"cmd": "c31.frame", "kind": "inline", "data": rep["ok"], "rest": "alive\n"}
                  for (case, rep, how, chan) in jobinfo if how == "inline" and rep is not None]
         fit = iter(ctx.model(freqs))
-        results = run_bash(jobs)
+        results = run_bash(jobs, lib=os.path.join(ebd_path, "ebuild-daemon-lib.bash"), piped=piped)
         for (case, rep, how, chan), (st, tail, vars_) in zip(jobinfo, results):
             env = case["env"]
             want = wanted_store(env, ro)
@@ -713,9 +777,19 @@ def _daemon(ctx, processor, rng, scratch, ro):
                     marked.append("VT_c%d_%s" % (i, k[3:]))
     merged[MARKER] = " ".join(marked)
     # (first transfer, second transfer on the same daemon = "the next request", routes)
-    plans = [(merged, gen_env(rng, 1000 + i, daemon=True, ro=ro), [r]) for i, r in enumerate(routes)]
+    if ctx.quick():
+        # one route for the merged corpus (rotating with the seed; the two big transfers below always use the inline routes,
+        # and all three routes go through the real framing code + real bash in the tier above)
+        plans = [(merged, gen_env(rng, 1000, daemon=True, ro=ro), [routes[ctx.seed % 3]])]
+    else:
+        plans = [(merged, gen_env(rng, 1000 + i, daemon=True, ro=ro), [r]) for i, r in enumerate(routes)]
+    # transfers several times the pipe capacity, inline (send_env without tmpdir, gen_ebuild_env)
+    # (array / single value only: hundreds of variables make the daemon's own environment dump take half a minute)
+    plans += [(gen_big(rng, kinds=(0, 1)), gen_env(rng, 2000, daemon=True, ro=ro), ["inline"]),
+              (gen_big(rng, kinds=(0, 1)), gen_env(rng, 2001, daemon=True, ro=ro), ["depend"])]
     if not ctx.quick():
-        plans += [(e, e, routes) for e in corpus]
+        plans += [(gen_big(rng, kinds=(0, 1)), gen_big(rng, kinds=(0, 1)), routes) for _ in range(2)]
+        plans += [(e, e, [routes[i % 3]]) for i, e in enumerate(corpus)]
         plans += [(gen_env(rng, i, daemon=True, ro=ro), gen_env(rng, 5000 + i, daemon=True, ro=ro), [routes[i % 3]]) for i in range(30)]
         # big transfers (several pipe buffers)
         big = {"VT_big%d" % i: gen_value(rng) * 40 + "é'\\" * 2000 for i in range(8)}
@@ -724,6 +798,7 @@ def _daemon(ctx, processor, rng, scratch, ro):
     for env1, env2, env_routes in plans:
         for route in env_routes:
             case = {"env": env1, "env_second_transfer": env2, "kind": "daemon-" + route}
+            t_plan = time.time()
             out = os.path.join(scratch, "dump")
             if os.path.exists(out):
                 os.unlink(out)
@@ -773,6 +848,7 @@ def _daemon(ctx, processor, rng, scratch, ro):
                 pass
             ctx.case(case, True, key=route + repr(sorted(env1.items())) + repr(sorted(env2.items())))
             ctx.count("daemon_" + route)
+            ctx.extra.setdefault("daemon_plan_seconds", []).append([route, sum(len(str(v)) for v in env1.values()) // 1024, round(time.time() - t_plan, 1)])
             ctx.traces += 2 if err is None else 1
             if err is not None:
                 ctx.violation(case, f"{route} transfer to a real daemon: {err}")
